@@ -12,6 +12,7 @@
  *                             followed by one observation line (not compared with the model, judged only)
  *                               obs ticks=<instructions executed> maxcsp=<max csp index> maxsp=<max sp index>
  *                                   csp=<csp index after> sp=<sp index after> cost=<budget> depth=<MaxCallDepth> stack=<n>
+ *                                   maxtouch=<highest slot at or above <n> that was written, -1 = none>
  *   lpc <path> <hex>          write generated LPC source to <mudlib>/<path>
  *   shape <term>              ignored (the abstract shape of the generated program, read by the model)
  *   reconf <Key> <value>      re-read the config file through init_config() with that key replaced
@@ -49,6 +50,7 @@ static unsigned long *verif_op_hist = 0;
 #endif
 static const struct { const char *name; int op; } c04_backops[] = { C04_BACKOPS {0, 0} };
 
+#define C04_SENTINEL 0x7e57
 static int c04_stack = 0;
 static const char *c04_conf = 0, *c04_scratch = "/tmp";
 static int c04_hc = 0;	/* the master's error handler completes a catch: error_state at the driver level is not compared */
@@ -80,6 +82,11 @@ static int c04_ev (int n, char **tok, int quiet)
       vh_out ("r err es=1");
       return 1;
     }
+  /* the slots above the lowered StackSize are marked: a push that is not seen at any instruction fetch (arguments
+   * pushed inside an efun, popped again before the callee's first instruction) still leaves its trace there */
+  if (c04_stack)
+    for (svalue_t * q = start_of_stack + c04_stack; q < start_of_stack + CONFIG_INT (__EVALUATOR_STACK_SIZE__); q++)
+      q->type = C04_SENTINEL;
   if (!setjmp (econ.context))
     {
       for (int i = 3; i < n; i++)
@@ -126,9 +133,19 @@ static int c04_ev (int n, char **tok, int quiet)
           len += snprintf (ops + len, sizeof ops - len, " %s=%lu", c04_backops[i].name, verif_op_hist[c04_backops[i].op & 255]);
       vh_out ("#ops%s", ops);
     }
-  vh_out ("obs ticks=%lld maxcsp=%ld maxsp=%ld csp=%ld sp=%ld cost=%d depth=%d stack=%d", verif_insn_count,
-          verif_max_csp, verif_max_sp, (long) (csp - control_stack), (long) (sp - start_of_stack),
-          CONFIG_INT (__MAX_EVAL_COST__), CONFIG_INT (__MAX_CALL_DEPTH__), c04_stack);
+  {
+    long touched = -1;
+    if (c04_stack)
+      for (svalue_t * q = start_of_stack + CONFIG_INT (__EVALUATOR_STACK_SIZE__) - 1; q >= start_of_stack + c04_stack; q--)
+        if (q->type != C04_SENTINEL)
+          {
+            touched = q - start_of_stack;
+            break;
+          }
+    vh_out ("obs ticks=%lld maxcsp=%ld maxsp=%ld csp=%ld sp=%ld cost=%d depth=%d stack=%d maxtouch=%ld", verif_insn_count,
+            verif_max_csp, verif_max_sp, (long) (csp - control_stack), (long) (sp - start_of_stack),
+            CONFIG_INT (__MAX_EVAL_COST__), CONFIG_INT (__MAX_CALL_DEPTH__), c04_stack, touched);
+  }
   return 1;
 }
 
